@@ -411,6 +411,14 @@ def check_reuse(a, info):
         elif kind == "calculate-rc":
             rc = pssm.reverse_complement()
             check_scores(rc.calculate(striped), window_scores_f32(pssm_rows(rc), indices(seq, False)), what)
+        elif kind == "scan-rc":
+            # the mirror image of a motif object that may have been scanned / scored with before
+            rc = pssm.reverse_complement()
+            rref = window_scores_f32(pssm_rows(rc), indices(seq, False))
+            t = float(np.median(rref)) if len(rref) and math.isfinite(float(np.median(rref))) else 0.0
+            hits = sorted((h.position, h.score) for h in lightmotif.scan(rc, striped, threshold=t, block_size=a["block"]))
+            if hits != expected_hits(rref, t):
+                raise Violation("reuse:scan-rc", "%s: %d hits, expected %d" % (what, len(hits), len(expected_hits(rref, t))))
         else:
             t = float(np.median(ref)) if len(ref) and math.isfinite(float(np.median(ref))) else 0.0
             hits = sorted((h.position, h.score) for h in lightmotif.scan(pssm, striped, threshold=t, block_size=a["block"]))
@@ -428,7 +436,7 @@ def reuse_args(draw):
         "protein": protein,
         "seq": draw(sequence_st(protein)),
         "motifs": draw(st.lists(sites_st(protein, max_n=4, max_w=30), min_size=1, max_size=4)),
-        "ops": draw(st.lists(st.tuples(st.integers(0, 3), st.sampled_from(["calculate", "scan", "calculate-rc"])), min_size=1, max_size=8)),
+        "ops": draw(st.lists(st.tuples(st.integers(0, 3), st.sampled_from(["calculate", "scan", "calculate-rc", "scan-rc"])), min_size=1, max_size=8)),
         "block": draw(st.sampled_from([1, 3, 256])),
     }
 
@@ -742,7 +750,7 @@ SUBS = [
         calculate_args(), check_calculate, 300, 6000),
     Sub("scan", "DNA sequence x motif x threshold (a real score +- 1e-3, -1e6, default, 1e6) x block_size (default, 1..300) -> lightmotif.scan; (position, score) multiset equals the reference; non-trivial = some but not all positions hit",
         scan_args(), check_scan, 300, 6000),
-    Sub("reuse", "one StripedSequence object reused by 1..8 operations (calculate, scan, calculate with the reverse complement) with up to 4 motifs of different widths (1..30) in a generated order; every result equals the reference for that motif; non-trivial = >= 2 ops, >= 2 distinct widths, L > 32",
+    Sub("reuse", "one StripedSequence object reused by 1..8 operations (calculate, scan, calculate / scan with the reverse complement of a motif object used before) with up to 4 motifs of different widths (1..30) in a generated order; every result equals the reference for that motif; non-trivial = >= 2 ops, >= 2 distinct widths, L > 32",
         reuse_args(), check_reuse, 200, 4000),
     Sub("pvalue", "DNA motif of width 1..5 under the uniform or a generated (strand-asymmetric) background, then a generated history of queries and reverse_complement() calls on the chain of matrix objects (query, mirror, query again, ...) -> pvalue / score (method='meme') of each object against a full Python enumeration of all 4^M words of ITS rows: P(S>=s+d) <= pvalue(s) <= P(S>=s-d), monotone, pvalue(score(p)) <= p, max_score; non-trivial = width >= 2 with >= 3 attainable scores",
         pvalue_args(), check_pvalue, 300, 4000),
